@@ -97,6 +97,27 @@ def make(fmt, seed, n):
         yield f"{k}:{name}", iso
     yield from converted(fmt)
     yield from marks(fmt)
+    if fmt in ('json', 'csv'):
+        yield from textcols(fmt)
+
+
+def textcols(fmt):
+    """extra text columns whose values coincide with words the formats use themselves (branch names, markers, literals)"""
+    import pandas
+    import pygaps
+    pygaps.logger.disabled = True
+    p, l = [0.05, 0.1, 0.2, 0.4, 0.3, 0.15], [0.5, 1.0, 1.5, 2.0, 1.9, 1.6]
+    meta = dict(material='pgv_rt_mat', adsorbate='nitrogen', temperature=77.355, pressure_mode='absolute', pressure_unit='bar', loading_basis='molar',
+                loading_unit='mmol', material_basis='mass', material_unit='g', temperature_unit='K')
+    words = {'branch_names': ['ads', 'ads', 'ads', 'ads', 'des', 'des'], 'mixed': ['des', 'ads', 'guess', 'all', 'des', 'ads'],
+             'plain': ['up', 'up', 'up', 'top', 'down', 'down']}
+    if fmt == 'json':
+        words['literals'] = ['true', 'false', 'None', 'nan', '1', '0']
+    for tag, col in words.items():
+        for branch in ([0, 0, 0, 0, 1, 1], [0, 0, 0, 0, 0, 0]):
+            pp, ll = (p, l) if any(branch) else (sorted(p), sorted(l))
+            df = pandas.DataFrame({'pressure': pp, 'loading': ll, 'direction': col})
+            yield f"textcol:{tag}|branch={''.join(map(str, branch))}", pygaps.PointIsotherm(isotherm_data=df, pressure_key='pressure', loading_key='loading', branch=branch, **meta)
 
 
 def marks(fmt):
